@@ -151,7 +151,7 @@ def tagged_case(rng, nm):
                 m_r=m_r, m_n=m_n or None, vals=dict(num=rng.choice([3, -1]), txt=rng.choice(['y', 'dflt'])))
 
 
-def run_tagged_v1(ctx, rng):
+def run_tagged_v1(ctx, rng, reqs=None, pend=None):
     from dataclass_wizard import fromdict, asdict
     n = ctx.quick(260, 3000)
     for j in range(n):
@@ -193,8 +193,14 @@ def run_tagged_v1(ctx, rng):
                 case = dict(base, doc=repr(doc)[:500])
                 ctx.seen('cascade:v1:tagged:' + ('3' if three else '2'), case)
                 want = outcome(load_outcome(lambda: fromdict(built_t.root, copy.deepcopy(part))), names=cs['names'])
-                got = outcome(load_outcome(lambda: fromdict(built.root, copy.deepcopy(doc))), get, cs['names'])
+                out = load_outcome(lambda: fromdict(built.root, copy.deepcopy(doc)))
+                got = outcome(out, get, cs['names'])
                 ctx.count('v1:tagged:' + want[0])
+                if reqs is not None:
+                    st = model.StdTables()
+                    st.add_json(doc)
+                    reqs.append({'op': 'loadv1', 'ty': model.enc_ty(root), 'doc': model.enc_j(doc), 'std': st.build()})
+                    pend.append((case, out, built))
                 if got != want:
                     ctx.fail('cascade:v1:tagged', case, f'the nested part {part!r} loaded below this root (Meta {cs["m_r"]!r}, own Meta {cs["m_n"]!r}) gives {got!r}; a class '
                              f'declaring the documented effective settings {cs["eff"]!r} itself gives {want!r}'[:1200], detail=src)
@@ -312,7 +318,7 @@ def lazyload_case(rng):
     return dict(root=root, n=n, twin=twin, mid=mid, shape=shape, fstyle=fstyle, eff=eff, docs=docs, selfref=selfref, names=names, m_r=m_r, m_n=m_n)
 
 
-def run_lazy_load(ctx):
+def run_lazy_load(ctx, reqs=None, pend=None):
     from dataclass_wizard import fromdict
     rng = random.Random(f'{ctx.prop_id}:{ctx.seed}:lazy-load')
     n = ctx.quick(260, 3000)
@@ -370,8 +376,14 @@ def run_lazy_load(ctx):
                         'effective': cs['eff'], 'twin': twin['info']['name'], 'selfref': selfref, 'inside_child_root': deep}
                 ctx.seen('cascade:lazy-load:' + shape, case)
                 want = outcome(load_outcome(lambda: fromdict(built_t.root, copy.deepcopy(part))), names=cs['names'])
-                got = outcome(load_outcome(lambda: fromdict(built.root, copy.deepcopy(doc))), lambda y: get_in(y, deep), cs['names'])
+                out = load_outcome(lambda: fromdict(built.root, copy.deepcopy(doc)))
+                got = outcome(out, lambda y: get_in(y, deep), cs['names'])
                 ctx.count('lazy-load:' + want[0])
+                if reqs is not None:
+                    st = model.StdTables()
+                    st.add_json(doc)
+                    reqs.append({'op': 'load', 'ty': model.enc_ty(model.unroll(root, 2)), 'doc': model.enc_j(doc), 'std': st.build()})
+                    pend.append((case, out, built))
                 if got != want:
                     ctx.fail('cascade:lazy-load', case, f'nested part {part!r} (keys in {kstyle} style, fields in {cs["fstyle"]} style) loaded through the root (Meta '
                              f'{cs["m_r"]!r}, own Meta {cs["m_n"]!r}) gives {got!r}; a class declaring the documented effective Meta {cs["eff"]!r} itself gives '
